@@ -543,6 +543,33 @@ def _one_doc(ctx, r, judge, text, auto, lf, per_doc, lockstep):
             judge.pair('copy', a2, copy.deepcopy(a2), rp, expect=True, lock=False)
             x2 = by_path(a2, picks[0][0])
             judge.pair('copy', x2, copy.deepcopy(x2), {**rp, 'path': list(picks[0][0]), 'copy_sub': True}, expect=True, lock=False)
+        # ... and after an edit history: a document with a history equals its copy like any other
+        a3 = parse(text, auto)
+        hist = []
+        for _ in range(r.choice([1, 2, 4])):
+            try:
+                op = edits.gen_op(r, a3, kinds=('numop',) if r.random() < 0.35 else None)
+                if op is None:
+                    break
+                edits.apply_op(a3, op)
+                hist.append(op)
+            except Exception:   # noqa: BLE001 - donor problems and refused edits are not C20's business
+                continue
+        if hist:
+            rp = {**base_replay, 'edits': hist}
+            try:
+                c3 = copy.deepcopy(a3)
+            except Exception:   # noqa: BLE001 - C11 matter
+                c3 = None
+            if c3 is not None:
+                ctx.count('copy-after-edits')
+                judge.pair('copy', a3, c3, rp, expect=True, lock=False)
+                try:
+                    h3 = intro.resolve(a3, hist[-1]['path'])
+                    if isinstance(h3, base.RawTreeModel):
+                        judge.pair('copy', h3, copy.deepcopy(h3), {**rp, 'copy_sub_api': hist[-1]['path']}, expect=True, lock=False)
+                except Exception:   # noqa: BLE001
+                    pass
         # tokens
         judge_tokens(ctx, a, base_replay)
         judge_text_variants(ctx, text, auto, a)
@@ -593,6 +620,18 @@ def replay(ctx, data):
 
 def _replay(ctx, rep, text, auto, before):
     a, b0 = parse(text, auto), parse(text, auto)
+    for op in rep.get('edits', []):
+        try:
+            edits.apply_op(a, op)
+        except Exception:   # noqa: BLE001
+            pass
+    if rep.get('edits'):
+        judge0 = Judge(ctx, False)
+        judge0.pair('copy', a, copy.deepcopy(a), rep, expect=True)
+        if rep.get('copy_sub_api'):
+            h = intro.resolve(a, rep['copy_sub_api'])
+            judge0.pair('copy', h, copy.deepcopy(h), rep, expect=True)
+        return len(ctx.oracle_fails) == before
     for p, ib in rep.get('indent_by', []):
         by_path(a, p).indent_by = ib
         by_path(b0, p).indent_by = ib
